@@ -637,7 +637,9 @@ class HedTag:
         if not isinstance(other, HedTag):
             return False
 
-        if self.short_tag == other.short_tag:
+        # Same schema tag with the same value or extension: letter case does not matter, whichever way the tags are spelled
+        # (agrees with __hash__, which folds the short name and the extension).
+        if self.short_tag.casefold() == other.short_tag.casefold():
             return True
 
         if self.org_tag.casefold() == other.org_tag.casefold():
